@@ -19,3 +19,6 @@ PROPERTY ActC07
 INVARIANT InvC03
 PROPERTY ActC03
 INVARIANT InvC18
+INVARIANT InvC16
+PROPERTY ActC16
+PROPERTY ActC16Join
